@@ -40,7 +40,11 @@ RULE = ("classes: (a) the mutate suite's collection-heavy classes with its op hi
         "to apply vs the same value passed explicitly vs assigned later vs explicit None; a defaulted field absent from "
         "__dict__ is keyed by how it came to be absent (@explicit-none, @post-history known; @constructor is not); wrapper "
         "calls on an unset field are not executed (they would edit the class-level default object); two fixed cases: __validate__ hook after unpickling, "
-        "Decimals with different exponents; non-trivial = >=2 instances; distinct by sha256 of the case line")
+        "Decimals with different exponents; additional (undeclared) attributes with unusual names (leading underscore, dunder-like, sunder, "
+        "method names, digits) on every 4th open-class case, carried through copy / deepcopy / pickle and chains (modelled), and assigned "
+        "after construction on closed classes (sunder / dunder names: real-code oracle only); heap cases: the object graph of every 2nd "
+        "case (quick) copied / deep-copied / pickled as a whole and wrapper by wrapper, compared with Sem/AliasC11.lean by identity; "
+        "non-trivial = >=2 instances or a heap case; distinct by sha256 of the case line")
 ASSUMPTIONS = [
     "_enable_undefined_value is modelled for the top-level class only (Inst.nones / Inst.undef, getA reads Undefined, setattrUndef); nested instances carry no _none_fields in the value model; the constructor model (C01/C02) does not know the flag, so start states of such classes are taken from the real code",
     "Python's str() of floats, Decimals, enum members, deques, frozensets is an oracle table per case (Render); theorems that need a property of it state it as a hypothesis",
